@@ -218,7 +218,7 @@ def judge(rep, prop, bhv, kw, d, owners):
             d["field"], json.dumps(d["spec"])[:200], json.dumps(d["impl"])[:200], d["step"]),
             {"kind": "acnsim", "behaviour": bhv, "variation": kw, "divergence": d})
     else:
-        rep.foreign_divergence(d["owner"])
+        rep.foreign_divergence(d["owner"], {"divergence": d, "variation": kw, "behaviour": bhv})
 
 
 def check_spec_replay(prop, tier, seed, owners, overrides, n_quick, n_thorough, base_kw=None, extra_assumptions=()):
@@ -293,7 +293,7 @@ def step_mode(rep, prop, owners, tier, seed):
                               d["field"], json.dumps(d["spec"])[:200], json.dumps(d["impl"])[:200], d["step"]),
                           {"kind": "acnsim_step", "behaviour": b, "variation": kw, "divergence": d})
         else:
-            rep.foreign_divergence(d["owner"])
+            rep.foreign_divergence(d["owner"], {"divergence": d, "variation": kw, "behaviour": b})
     rep.notes.append("%d behaviours of AcnSimStep.tla (Simulator.step driven with the spec's schedules; TypeError and "
                      "StationOccupiedError outcomes included) replayed" % len(jobs))
 
@@ -385,7 +385,7 @@ def check_C09(tier, seed):
                 d["field"], json.dumps(d["spec"])[:200], json.dumps(d["impl"])[:200], d["step"]),
                 {"kind": "acnsim_twin", "behaviour": b, "variation": kw, "divergence": d})
         else:
-            rep.foreign_divergence(d["owner"])
+            rep.foreign_divergence(d["owner"], {"divergence": d, "variation": kw, "behaviour": b})
     # two-stage batteries: interrupted run == twin run (implementation vs implementation)
     sub = allb[: (300 if tier == "quick" else 6000)]
     jobs = [(b, _kw_cycle(i, seed, twostage=True), seed * 100003 + i) for i, b in enumerate(sub)]
@@ -398,7 +398,7 @@ def check_C09(tier, seed):
             rep.violation(_div_key(d), "%s: %s vs %s" % (d["field"], json.dumps(d["spec"])[:200], json.dumps(d["impl"])[:200]),
                           {"kind": "acnsim_twostage", "behaviour": b, "variation": kw, "divergence": d})
         else:
-            rep.foreign_divergence(d["owner"])
+            rep.foreign_divergence(d["owner"], {"divergence": d, "variation": kw, "behaviour": b})
     rep.notes.append("%d interrupted behaviours replayed against the spec; %d of them also with Linear2StageBattery "
                      "against their interruption-free twin" % (len(allb), len(sub)))
     for b in allb[:2]:
@@ -450,7 +450,7 @@ def check_C10(tier, seed):
                                                                    json.dumps(d["impl"])[:160]),
                           {"kind": "acnsim_meta", "behaviour": b, "variations": kws, "divergence": d})
         else:
-            rep.foreign_divergence(d["owner"])
+            rep.foreign_divergence(d["owner"], {"divergence": d, "variations": kws, "behaviour": b})
     from .props_sched import metamorphic_real_schedulers
     metamorphic_real_schedulers(rep, bhvs[: (150 if tier == "quick" else 3000)], seed)
     for b in bhvs[:2]:
